@@ -123,7 +123,8 @@ def gen_x2(thorough):
 
 def gen_x3(thorough):
     # integers: every boundary of the receivers' lengths (0..3): -n-1, -n, -1, 0, n-1, n
-    argpool = ["''", "'a'", "','", "' '", '0', '1', '-1', '5', 'true', "['a', 'b']", "{'a': 1}", '2', '3', '-2', '-3', '-4']
+    # strings that look like the placeholders of the receivers ('@0@-@1@'): an argument's text is never template text
+    argpool = ["''", "'a'", "','", "' '", '0', '1', '-1', '5', 'true', "['a', 'b']", "{'a': 1}", '2', '3', '-2', '-3', '-4', "'@1@'", "'@0@'"]
     tuples = [()] + [(a,) for a in argpool] + [(a, b) for a in argpool for b in argpool]
     recv = {
         'str': ["''", "'a'", "'a b'", "'Ab1_-é'", "' x\\n'", "'12'", "'-7'", "'0x1F'", "'a,b,,c'", "'l1\\nl2\\r\\nl3\\n'", "'@0@-@1@'", "'aXbXa'", "'0b101'", "'0o17'", "'1.5'", "'abc'"],
